@@ -199,6 +199,7 @@ def _audit(ctx, items):
     batches = [([(c, ["audit:names"]) for c in TF.names_cases("C04")], "all"),
                ([(c, ["audit:shapes"]) for c in TF.shape_cases("C04")], "all"),
                ([(c, ["audit:flags"]) for c in TF.flag_cases("C04")], "one"),
+               ([(c, ["audit:legacy-stores"]) for c in TF.legacy_cases("C04")], "all"),
                (TF.position_cases(ctx, "C04"), "one"),
                ([(c, ["audit:oracle-only"]) for c in TF.oracle_only_cases("C04")], "none")]
     for cases, crashes in batches:
@@ -215,7 +216,7 @@ def _audit(ctx, items):
                 S.close()
     TF.run_observations(ctx, "C04")  # unjudged inputs, recorded only
     # the memfs staging source of hashfile.build (oracle-only; closure audit + retry)
-    for case in TF.staging_cases():
+    for case in TF.staging_cases() + TF.mixedfs_cases():
         case = {**case, "prop": "C04"}
         problems, dims, rounds = TF.run_staging(ctx, case)
         ctx.case(case, True)
@@ -347,7 +348,7 @@ def run(ctx):
 
 def replay_case(ctx, case):
     case = copy.deepcopy(case)
-    if case.get("stream") == "staging":
+    if case.get("stream") in ("staging", "mixedfs"):
         problems, _dims, rounds = TF.run_staging(ctx, case)
         problems = [p for p in problems if p[0].startswith("C04:")]
         return {"violates": bool(problems), "problems": problems, "outcomes": [str(r["outcome"][:1]) for r in rounds]}
